@@ -128,7 +128,10 @@ package rapidcore
 //@   ensures [not-initialised] delta(InitFailuresRead) == 1 && (lastret(InitFailuresRead) == nil ==> r0 == ErrInitNotStarted && delta(ServerReset) == 0 && delta(TimeoutFired) == 0)
 //@   ensures [exactly-one-report-from-the-release-goroutine] lastret(InitFailuresRead) != nil ==> delta(ReleaseFailedSeen) + delta(ReleaseSucceededSeen) == 1 && delta(TimeoutFired) <= 1
 //@   ensures [timeout-resets-then-reports-the-timeout] delta(TimeoutFired) == 1 ==> r0 == ErrInvokeTimeout && delta(ServerReset) == 1 && lastarg(ServerReset, 1) == autoresetReasonTimeout && lastarg(ServerReset, 2) == resetDefaultTimeoutMs && first(TimeoutFired) < first(ServerReset) && (delta(ReleaseFailedSeen) == 1 ==> last(ServerReset) < first(ReleaseFailedSeen)) && (delta(ReleaseSucceededSeen) == 1 ==> last(ServerReset) < first(ReleaseSucceededSeen))
-//@   ensures [success-releases-the-reservation] delta(TimeoutFired) == 0 && delta(ReleaseSucceededSeen) == 1 ==> r0 == nil && delta(ServerReleased) == 1 && delta(ServerReset) == 0
+//@   ensures [success-is-reported-without-a-reset] delta(TimeoutFired) == 0 && delta(ReleaseSucceededSeen) == 1 ==> r0 == nil && delta(ServerReset) == 0
+// C10: the reservation is made by the release goroutine and given back inside AwaitRelease (or by the reset); the caller's own
+// goroutine holds none, and Release gives back whatever reservation is current, which by then may be the next caller's
+//@   ensures [C10: a-caller-gives-back-no-reservation-it-does-not-hold] delta(ServerReleased) == 0
 //@   ensures [failure-is-handed-on-without-a-second-reset] delta(TimeoutFired) == 0 && delta(ReleaseFailedSeen) == 1 ==> r0 != nil && delta(ServerReset) == 0 && delta(ServerReleased) == 0
 
 // the timer goroutine sends nothing but the timeout error, at most once (what Invoke returns after a timeout is what it received)
